@@ -4,6 +4,10 @@ package main
 
 import (
 	"fmt"
+	"github.com/whawty/auth/sasl"
+	"io"
+	"net"
+	"path/filepath"
 	"strings"
 	"testing"
 	"time"
@@ -13,14 +17,25 @@ import (
 )
 
 func genC11(t *rapid.T) (schedCase, []opSpec) {
-	c := schedCase{Mode: rapid.SampledFrom([]string{"", "local", "local"}).Draw(t, "mode"), Users: schedUsers}
+	c := schedCase{Mode: rapid.SampledFrom([]string{"", "local", "local", "local", "remote-ok", "remote-unreachable"}).Draw(t, "mode"), Users: schedUsers}
 	users := []string{"old1", "old2", "cur1", "new1"}
 	hot := rapid.SampledFrom(users[:2]).Draw(t, "hot")
+	// records of the upgradeable users written in the very second the history starts: a "did it change since?" test on the
+	// one-second time stamp cannot tell them from what an update in the same second writes
+	if rapid.IntRange(0, 2).Draw(t, "freshRecords") == 0 {
+		c.Users = append([]seedUser{}, c.Users...)
+		for i := range c.Users {
+			if c.Users[i].PID != 1 {
+				c.Users[i].TS = -1
+			}
+		}
+		vlib.Class("upgradeable-records-written-in-the-current-second")
+	}
 	// a store larger than any chunk a directory listing might be read in: list must still be one atomic step
 	filler := rapid.SampledFrom([]int{0, 0, 0, 0, 70, 150, 300}).Draw(t, "filler")
 	var fillers []string
 	if filler > 0 {
-		c.Users = append([]seedUser{}, schedUsers...)
+		c.Users = append([]seedUser{}, c.Users...)
 		for i := 0; i < filler; i++ {
 			n := fmt.Sprintf("f%03d", i)
 			c.Users = append(c.Users, seedUser{Name: n, PW: "fpw", Admin: i%9 == 0, PID: 1})
@@ -185,6 +200,34 @@ func TestC11FreeRunning(t *testing.T) {
 			t.Fatalf("VERIF-INFRA %v", err)
 		}
 		fe1, fe2 := e.s.GetInterface(), e.s.GetInterface() // two frontends, as SASL + HTTP would have
+		// ... and a real saslauthd socket served by sasl.Server with the agent's callback: every fourth client logs in through it,
+		// its request cut in the middle of the password field, so that requests of different connections are half-read at the same time
+		sockPath := filepath.Join(e.root, "sasl.sock")
+		ln, lerr := net.ListenUnix("unix", &net.UnixAddr{Name: sockPath, Net: "unix"})
+		if lerr != nil {
+			t.Fatalf("VERIF-INFRA %v", lerr)
+		}
+		srv, _ := sasl.NewServerFromListener(ln, func(l, p, sv, r string) (bool, string, error) { return callback(l, p, sv, r, sockPath, fe2) })
+		srvDone := make(chan struct{})
+		go func() { srv.Run(); close(srvDone) }()
+		sockAuth := func(user, pw string) (bool, error) {
+			c, err := net.DialTimeout("unix", sockPath, 10*time.Second)
+			if err != nil {
+				return false, err
+			}
+			defer c.Close()
+			data := vlib.RefEncode(user, pw, "svc", "realm")
+			cut := 2 + len(user) + 2 + len(pw)/2
+			c.Write(data[:cut])
+			time.Sleep(200 * time.Microsecond)
+			c.Write(data[cut:])
+			c.SetReadDeadline(time.Now().Add(60 * time.Second))
+			rep, err := io.ReadAll(c)
+			if len(rep) < 4 {
+				return false, fmt.Errorf("short reply %x (%v)", rep, err)
+			}
+			return string(rep[2:4]) == "OK", nil
+		}
 		errs := make(chan string, clients)
 		rounds := 150
 		if vlib.Thorough() {
@@ -212,6 +255,14 @@ func TestC11FreeRunning(t *testing.T) {
 						w1, w2 := <-wrongDone, <-wrongDone
 						if !okr || w1 || w2 {
 							errs <- fmt.Sprintf("client %d: logins of %s in flight together: right password ok=%v, wrong passwords ok=%v/%v (round %d, mode %q)", i, name, okr, w1, w2, r, mode)
+							return
+						}
+					}
+					if i%4 == 1 {
+						okS, errS := sockAuth(name, cur)
+						okW, errW := sockAuth(name, "wrong-"+cur)
+						if errS != nil || errW != nil || !okS || okW {
+							errs <- fmt.Sprintf("client %d: over the saslauthd socket, %s with the current password got ok=%v (%v), with a wrong password ok=%v (%v), while %d other clients were active (round %d, mode %q)", i, name, okS, errS, okW, errW, clients-1, r, mode)
 							return
 						}
 					}
@@ -264,6 +315,8 @@ func TestC11FreeRunning(t *testing.T) {
 			}
 		}
 		vlib.EvalN(clients * rounds * 2)
+		ln.Close()
+		<-srvDone
 		e.cleanup()
 		if bad != "" {
 			vlib.Violation(bad, "TestC11FreeRunning", map[string]any{"mode": mode, "clients": clients})
